@@ -28,6 +28,7 @@ import (
 type tcase struct {
 	id   string
 	cut  int
+	disk bool
 	cmds []command
 }
 
@@ -44,6 +45,9 @@ func parseCase(line string) tcase {
 		if strings.HasPrefix(kv, "cut=") {
 			c.cut, _ = strconv.Atoi(kv[4:])
 		}
+		if kv == "kind=disk" {
+			c.disk = true
+		}
 	}
 	for _, s := range strings.Split(body, " ; ") {
 		s = strings.TrimSpace(s)
@@ -54,12 +58,16 @@ func parseCase(line string) tcase {
 	return c
 }
 
-func caseLine(id string, cut int, cmds []command) string {
+func caseLine(id string, cut int, disk bool, cmds []command) string {
 	var s []string
 	for _, c := range cmds {
 		s = append(s, c.String())
 	}
-	return fmt.Sprintf("%s cut=%d | %s", id, cut, strings.Join(s, " ; "))
+	k := ""
+	if disk {
+		k = " kind=disk"
+	}
+	return fmt.Sprintf("%s cut=%d%s | %s", id, cut, k, strings.Join(s, " ; "))
 }
 
 func opsString(ops []string) string {
@@ -73,7 +81,7 @@ func opsString(ops []string) string {
 // recorded operations, whether the cut fell strictly inside a command, and the
 // monitor's messages.
 func runCase(c tcase, dist map[string]int) (lines []string, total int, inside bool, viol []string) {
-	w := newWorld(c.cut)
+	w := newWorldKind(c.cut, c.disk)
 	w.r.distinct = dist
 	for n, cmd := range c.cmds {
 		oc := w.do(cmd)
@@ -94,7 +102,11 @@ func runCase(c tcase, dist map[string]int) (lines []string, total int, inside bo
 		lines = append(lines, fmt.Sprintf("%s tree %s rec=%d", c.id, treeString(w.observe()), w.rec))
 	}
 	w.powerLoss()
-	lines = append(lines, fmt.Sprintf("%s crashed %s rec=%d", c.id, treeString(w.observe()), w.rec))
+	if c.disk {
+		lines = append(lines, fmt.Sprintf("%s crashed %s rec=%d sm=%d", c.id, treeString(w.observe()), w.rec, w.disk.dur))
+	} else {
+		lines = append(lines, fmt.Sprintf("%s crashed %s rec=%d", c.id, treeString(w.observe()), w.rec))
+	}
 	oc := "ok"
 	if p := vh.Catch(func() {
 		if err := w.snap.VerifProcessOrphans(); err != nil {
@@ -104,6 +116,21 @@ func runCase(c tcase, dist map[string]int) (lines []string, total int, inside bo
 		oc = "panic"
 	}
 	lines = append(lines, fmt.Sprintf("%s po -> %s : %s", c.id, oc, opsString(w.r.take())))
+	if c.disk && oc == "ok" {
+		// the replica starts again: OpenOnDiskStateMachine and the initial node.recover
+		shrunkBefore := w.rec != 0 && snapState(w.mem, w.snap.VerifFilePath(w.rec)) == "shrunk"
+		durBefore := w.disk.dur
+		ro := w.startNode(false)
+		lines = append(lines, fmt.Sprintf("%s restart -> %s : %s", c.id, ro, opsString(w.r.take())))
+		switch {
+		case ro != "ok" && shrunkBefore && durBefore < w.rec:
+			viol = append(viol, fmt.Sprintf("restart %s: recorded snapshot %d is shrunk while the state machine is durable only up to %d", ro, w.rec, durBefore))
+		case ro != "ok":
+			viol = append(viol, fmt.Sprintf("restart %s after crash and start-up cleanup (recorded snapshot %d, state machine durable up to %d): %s", ro, w.rec, durBefore, w.lastPanic))
+		case w.appliedIndex() < w.rec:
+			viol = append(viol, fmt.Sprintf("the replica restarted at index %d, older than the recorded snapshot %d", w.appliedIndex(), w.rec))
+		}
+	}
 	t := w.observe()
 	verdict := cleanVerdict(t, w.rec)
 	if oc != "ok" {
@@ -203,14 +230,65 @@ func randomSeq(r *vh.Rand, maxLen int) []command {
 	return out
 }
 
+func diskScenarios() [][]command {
+	p := func(s string) []command {
+		var out []command
+		for _, x := range strings.Split(s, ";") {
+			out = append(out, parseCommand(strings.TrimSpace(x)))
+		}
+		return out
+	}
+	return [][]command{
+		p("RECV 5 3; APPLY 5; RECOVER 5"),
+		p("RECV 5 1; APPLY 5; RECOVER 5; RECV 8 2; APPLY 8; RECOVER 8; COMPACT 5"),
+		p("RECV 5 2; APPLY 5; CRASH; RECV 9 2; APPLY 9; RECOVER 9"),
+		p("RECV 5 2; APPLY 5; RECOVER 5; CRASH; RECV 7 1; APPLY 7; RECOVER 7; CRASH"),
+	}
+}
+
+// randomDiskSeq: an on-disk replica that keeps falling behind and installs
+// snapshots from the leader, with crashes in between.
+func randomDiskSeq(r *vh.Rand, maxLen int) []command {
+	var out []command
+	next := uint64(1 + r.Intn(3))
+	var final []uint64
+	n := 3 + r.Intn(maxLen)
+	for len(out) < n {
+		switch r.Intn(8) {
+		case 0, 1, 2, 3:
+			i := next
+			next += uint64(1 + r.Intn(3))
+			out = append(out, command{kind: "RECV", i: i, n: uint64(1 + r.Intn(3))})
+			final = append(final, i)
+			if r.Chance(5, 6) {
+				out = append(out, command{kind: "APPLY", i: i})
+				if r.Chance(5, 6) {
+					out = append(out, command{kind: "RECOVER", i: i})
+				}
+			}
+		case 4:
+			if len(final) > 0 {
+				out = append(out, command{kind: "RECOVER", i: final[len(final)-1]})
+			}
+		case 5:
+			if len(final) > 1 {
+				out = append(out, command{kind: "COMPACT", i: final[r.Intn(len(final)-1)]})
+			}
+		default:
+			out = append(out, command{kind: "CRASH"})
+		}
+	}
+	return out
+}
+
 func gen(a vh.Args) {
 	r := vh.NewRand(a.Seed)
-	nseq := 60
+	nseq, ndisk := 60, 16
 	if a.Tier == "thorough" {
-		nseq = 1500
+		nseq, ndisk = 1500, 400
 	}
 	if a.N > 0 {
-		nseq = a.N
+		nseq, ndisk = a.N, (a.N+3)/4
 	}
 	w := vh.Create(a.Cases)
 	defer w.Close()
@@ -218,12 +296,22 @@ func gen(a vh.Args) {
 	for len(seqs) < nseq {
 		seqs = append(seqs, randomSeq(r, 7))
 	}
-	for k, cmds := range seqs {
-		_, total, _, _ := runCase(tcase{id: "probe", cut: -1, cmds: cmds}, nil)
-		w.Printf("%s\n", caseLine(fmt.Sprintf("s%dfull", k), -1, cmds))
+	emit := func(prefix string, k int, disk bool, cmds []command) {
+		_, total, _, _ := runCase(tcase{id: "probe", cut: -1, disk: disk, cmds: cmds}, nil)
+		w.Printf("%s\n", caseLine(fmt.Sprintf("%s%dfull", prefix, k), -1, disk, cmds))
 		for cut := 0; cut <= total; cut++ {
-			w.Printf("%s\n", caseLine(fmt.Sprintf("s%dk%d", k, cut), cut, cmds))
+			w.Printf("%s\n", caseLine(fmt.Sprintf("%s%dk%d", prefix, k, cut), cut, disk, cmds))
 		}
+	}
+	for k, cmds := range seqs {
+		emit("s", k, false, cmds)
+	}
+	dseqs := diskScenarios()
+	for len(dseqs) < ndisk {
+		dseqs = append(dseqs, randomDiskSeq(r, 6))
+	}
+	for k, cmds := range dseqs {
+		emit("d", k, true, cmds)
 	}
 }
 
